@@ -7,6 +7,7 @@ import (
 	"os"
 	"sort"
 	"strings"
+	"sync"
 	"sync/atomic"
 	"testing"
 	"testing/synctest"
@@ -696,6 +697,73 @@ func facadeScenario(withShutdown bool) e1.Scenario {
 func init() {
 	registerND("cluster-pin-unpin-statusall", 1, 2, facadeScenario(false))
 	registerND("cluster-pin-unpin-shutdown", 1, 2, facadeScenario(true))
+}
+
+// ---------- scenario 8b: crdt batching queue: a commit fails while callers keep logging ----------
+
+func init() {
+	registerND("crdt-batch-commit-fails-callers-continue", 1, 2, func(t *testing.T) *e1.Exec {
+		ctx := context.Background()
+		_, hosts := clus.NewMocknetUnconnected(ctx, 0, 1)
+		store := clus.NewFaultStore()
+		p, err := clus.NewCRDTPeer(ctx, hosts[0], store, false, func(c *crdt.Config) {
+			c.Batching.MaxBatchSize = 2
+			c.Batching.MaxBatchAge = 10 * time.Second
+			c.Batching.MaxQueueSize = 10
+		})
+		if err != nil {
+			t.Fatal(err)
+		}
+		<-p.Cons.Ready(ctx)
+		quiesce()
+		mk := func(s string) *api.Pin {
+			x := api.PinCid(clus.Cid(s))
+			x.ReplicationFactorMin, x.ReplicationFactorMax = -1, -1
+			return x
+		}
+		store.FailPuts(1) // the first datastore write fails: the first (size-triggered) commit fails
+		accepted := map[string]bool{}
+		var mu sync.Mutex
+		log := func(l string) {
+			if p.Cons.LogPin(ctx, mk(l)) == nil {
+				mu.Lock()
+				accepted[l] = true
+				mu.Unlock()
+			}
+		}
+		return &e1.Exec{
+			Threads: map[string]func(){
+				"T0": func() { log("a"); log("b") },
+				"T1": func() { log("c"); log("d") },
+			},
+			After: func(runErr error) (string, []e1.Finding) {
+				quiesce()
+				// the worker is alive: everything accepted is committed once
+				// the age limit has passed (several times over)
+				for i := 0; i < 4; i++ {
+					time.Sleep(11 * time.Second)
+					quiesce()
+				}
+				var fs []e1.Finding
+				st, err := p.Cons.State(ctx)
+				if err != nil {
+					return "state-error", []e1.Finding{{Key: "state-error", Detail: err.Error()}}
+				}
+				missing := []string{}
+				for l := range accepted {
+					if ok, _ := st.Has(ctx, clus.Cid(l)); !ok {
+						missing = append(missing, l)
+					}
+				}
+				sort.Strings(missing)
+				if len(missing) > 0 {
+					fs = append(fs, e1.Finding{Key: "batch-worker-stuck", Detail: fmt.Sprintf("accepted by LogPin but not in the state 40s (4 x max_batch_age) later: %v", missing)})
+				}
+				return fmt.Sprintf("accepted=%d missing=%d", len(accepted), len(missing)), fs
+			},
+			Teardown: func() { p.Stop(); hosts[0].Close() },
+		}
+	})
 }
 
 // ---------- scenario 8: crdt batching queue: LogPin / LogPin / worker / Shutdown ----------
